@@ -956,8 +956,11 @@ def install(recorder):
                         # one rounding of the remainder sum (absolute 2^-52) plus the rounding of the quotient draw/(rate*speed)
                         tol = Fraction(1, 2 ** 52) + want / 2 ** 48
                         propres = min(10 ** 9, int(math.ceil(abs(dt - want) / tol)))
+                # the walker's total against the sum of the stored (clipped) bounds of all offsets for this direction / sign
+                sumref = math.fsum(max(b[direction][bi], 0.0) for b in handler._derivative_bounds.values())
+                totok = int(abs(walker.total_rate - sumref) <= 1e-9 * max(sumref, 1e-300))
                 sub["cellveto"] = dict(sys=REC.hid_cellsys[hid], activeCell=idx[act[0][0]], rel=idx[rel], target=idx[target],
-                                       propres=propres,
+                                       propres=propres, totok=totok,
                                        walker=which, signpos=int(cf > 0.0), direction=direction,
                                        rate=fkey(handler._bounding_event_rate), rateref=fkey(ref),
                                        positive=int(handler._bounding_event_rate > 0.0))
